@@ -104,4 +104,60 @@ def firstBad (t : Tracker) (i : Nat) : List Step → List Obs → Option (Nat ×
     | none => firstBad (advance t s o) (i + 1) ss os
   | _, _ => none
 
+/-! ### A static-drift pass over several NodePools, seen from outside
+
+"… never exceeds its node limit and settles at the replica count, also while drifted nodes are being replaced …, and the
+bookkeeping never crashes the controller."  One pass of the disruption controller's static-drift method replaces
+drifted nodes of all static pools at once; the observer sees, per pool, the NodeClaims before and after, what
+`GetNodeCount` reports afterwards, how many replace commands were computed, and what is still reserved against the
+pool's node limit once the pass is over. -/
+
+structure PassPool where
+  /-- replica-based pool -/
+  static : Bool
+  limit : Option Int
+  /-- NodeClaims of the pool before the pass -/
+  nodes : Nat
+  /-- … of which drifted and not already on their way out -/
+  drifted : Nat
+  /-- … of which already on their way out -/
+  marked : Nat
+  /-- slots other reconciles hold against the pool's node limit during the pass -/
+  held : Int
+deriving Repr
+
+structure PassObs where
+  commands : Nat
+  a : Nat
+  d : Nat
+  p : Nat
+  total : Nat
+  /-- what the pass still holds reserved against the node limit after it is over -/
+  reserved : Int
+deriving Repr
+
+def checkPass (pool : PassPool) (o : PassObs) : Option String :=
+  let created : Int := (o.total : Int) - pool.nodes
+  if o.reserved != 0 then
+    some s!"after the pass {o.reserved} slot(s) reserved against limits.nodes were never given back"
+  else if o.a + o.d + o.p != o.total then some "GetNodeCount does not report the NodeClaims that exist"
+  else if created < 0 then some "the pass removed NodeClaims"
+  else if !pool.static && (created != 0 || o.commands != 0 || o.p != 0 || o.d != pool.marked) then
+    some "static drift acted on a NodePool that is not static"
+  else if o.commands > pool.drifted then some "more replace commands than the pool has drifted nodes"
+  else if created > pool.drifted then some "more replacement NodeClaims than the pool has drifted nodes"
+  else if created > 0 && !withinLimit pool.limit ((o.total : Int) + pool.held) then
+    some "replacement NodeClaims were created beyond limits.nodes (NodeClaims + slots held by other reconciles)"
+  else if created > (o.d : Int) - pool.marked then
+    some "a replacement NodeClaim was created without a drifted node on its way out (the pool cannot settle at its replica count)"
+  else none
+
+/-- first pool whose outcome is unacceptable -/
+def firstBadPool (i : Nat) : List PassPool → List PassObs → Option (Nat × String)
+  | pool :: ps, o :: os =>
+    match checkPass pool o with
+    | some why => some (i, why)
+    | none => firstBadPool (i + 1) ps os
+  | _, _ => none
+
 end Karp.Spec.Static
